@@ -9,7 +9,7 @@ specification: `S3V/Spec/SigV4.lean` (from the AWS documents). `sha256hex` and `
 every statement. Quantifiers: all requests (any byte strings, any number of headers / parameters), no size bound.
 State of the code: with the repairs b7c08fd (canonical headers collapse space runs and join repeated lines), 4011296
 (algorithm token and scope date checked), 10af2bf (a listed header must be in the request), d453cd3 (`x-amz-date` and
-`x-amz-content-sha256` are parsed with their edge SP / HTAB removed: `trimOws`) and a3c9b6f (the payload line of a GET /
+`x-amz-content-sha256` are parsed with their edge SP / HTAB removed: `trimOws`) and 4d2a913 (the payload line of a GET /
 HEAD request follows `x-amz-content-sha256` and the body like that of any other method). The theorems marked
 `_partial` exclude, by the explicit decidable predicates `wf` / `wfHeaderAuth`, what still deviates or lies outside the
 specification's domain: duplicate query names whose values do not ascend (OPEN class `sigv4-dup-query-unsorted`, kept
@@ -76,7 +76,7 @@ theorem C05_verdict_iff_partial (sha256hex : Bytes → Bytes) (hmac : Bytes → 
           ((c.req raw a.signedHeaders payload).toSpec sha256hex) :=
   header_verdict_iff_spec sha256hex hmac look c raw ak region service hraw hwf
 
-/-- (repair a3c9b6f, former class `sigv4-get-head-body`) the payload line `v4_check_header_auth` signs is the one the
+/-- (repair 4d2a913, former class `sigv4-get-head-body`) the payload line `v4_check_header_auth` signs is the one the
     request declares, WHATEVER THE METHOD: if the unique `x-amz-content-sha256` value, edge blanks removed, is
     `UNSIGNED-PAYLOAD`, `STREAMING-AWS4-HMAC-SHA256-PAYLOAD` or the digest of the body (`SpecPayloadLine`, the three
     admissible shapes of the AWS documents), then whenever the payload dispatch of the code succeeds the line it puts
